@@ -235,12 +235,85 @@ def classify_known(text, stderr):
     return cls
 
 
+def run_cli_case(cmd, work):
+    """one CLI run -> (outcome, stderr)"""
+    try:
+        p = subprocess.run([str(ANTHEM)] + cmd, stdout=subprocess.PIPE, stderr=subprocess.PIPE, timeout=20, env=dict(os.environ, RUST_BACKTRACE="0"))
+        err = p.stderr.decode("utf-8", "replace")
+        if p.returncode == 0:
+            return "ok", err
+        if p.returncode < 0:
+            return "signal", err
+        if "panicked at" in err:
+            return "panic", err
+        return "error", err
+    except subprocess.TimeoutExpired:
+        return "timeout", ""
+
+
+EDGE_TEXTS = {
+    "lp": ["", "% only a comment\n", "p.\n", "p(X) :- q(X).\n", ":- p.\n", "{p(1..3)}.\nq(X) :- p(X), not r.\n"],
+    "spec": ["", "% only a comment\n", "p.\n", "forall X (p(X) <-> q(X)).\n"],
+    "ug": ["", "% only a comment\n", "input: q/1.\noutput: p/1.\n", "input: n -> integer.\noutput: p/0.\nassumption: n > 0.\n"],
+    "po": ["", "% only a comment\n", "lemma: forall X (p(X) -> p(X)).\n", "inductive-lemma: forall N$i (N$i >= 0 -> N$i >= 0).\n"],
+}
+
+
+def edge_matrix(work):
+    """The deterministic part of the crash exploration: every command on the degenerate files of its kind, and the verify
+    pipeline (problem construction only) on every combination of degenerate specification / program / user guide / proof
+    outline x decomposition x direction.  Yields (cmd, files-text)."""
+    for kind, cmds in COMMANDS.items():
+        for t in EDGE_TEXTS[kind]:
+            f = work / f"edge.{kind}"
+            for c in cmds:
+                f.write_text(t)
+                yield c + [str(f)], t
+    out = work / "edge_out"
+    for dec in ("independent", "sequential"):
+        for dirn in ("universal", "forward", "backward"):
+            base = ["--no-proof-search", "--decomposition", dec, "--direction", dirn, "--save-problems", str(out)]
+            for a in EDGE_TEXTS["lp"][:4]:
+                for b in EDGE_TEXTS["lp"][:4]:
+                    shutil.rmtree(out, ignore_errors=True); out.mkdir()
+                    fa, fb = work / "ea.lp", work / "eb.lp"
+                    fa.write_text(a); fb.write_text(b)
+                    yield ["verify", "--equivalence", "strong"] + base + [str(fa), str(fb)], a + "|" + b
+            for sk, st in [("spec", x) for x in EDGE_TEXTS["spec"]] + [("lp", x) for x in EDGE_TEXTS["lp"][:4]]:
+                for b in EDGE_TEXTS["lp"][:4]:
+                    for u in EDGE_TEXTS["ug"][:3]:
+                        for o in (None, EDGE_TEXTS["po"][2]):
+                            shutil.rmtree(out, ignore_errors=True); out.mkdir()
+                            # file names chosen so that the specification sorts first (Files::sort is by file name)
+                            fs, fb, fu, fo = work / f"ea.{sk}", work / "eb.lp", work / "ec.ug", work / "ed.po"
+                            for x in (work / "ea.spec", work / "ea.lp"):
+                                x.unlink(missing_ok=True)
+                            fs.write_text(st); fb.write_text(b); fu.write_text(u)
+                            files = [str(fs), str(fb), str(fu)]
+                            if o is not None:
+                                fo.write_text(o); files.append(str(fo))
+                            yield ["verify", "--equivalence", "external"] + base + files, "|".join([st, b, u, o or ""])
+
+
 def crash_exploration(runs, seed):
     rng = random.Random(seed)
     texts = seed_texts()
     work = Path(tempfile.mkdtemp(prefix="c16_", dir=str(VERIF / "work")))
     failures, known_seen, outcomes, samples = [], {}, {"ok": 0, "error": 0, "panic": 0, "signal": 0, "timeout": 0}, []
+    edge_runs = 0
     try:
+        for cmd, text in edge_matrix(work):
+            o, err = run_cli_case(cmd, work)
+            outcomes[o] += 1
+            edge_runs += 1
+            if o in ("panic", "signal", "timeout"):
+                cls = classify_known(text, err)
+                if cls:
+                    for c in cls:
+                        known_seen[c] = known_seen.get(c, 0) + 1
+                else:
+                    failures.append({"command": [c if not c.startswith(str(work)) else Path(c).name for c in cmd], "input": text[:3000],
+                                     "outcome": o, "stderr": err[-800:], "from": "edge matrix (files separated by |)"})
         for k in range(runs):
             kind = rng.choice(["lp", "lp", "spec", "spec", "ug", "po"])
             base = rng.choice(texts[kind])
@@ -292,7 +365,7 @@ def crash_exploration(runs, seed):
                     failures.append({"command": cmd[:6], "input": text[:3000], "outcome": o, "stderr": err[-800:]})
     finally:
         shutil.rmtree(work, ignore_errors=True)
-    return {"evaluations": runs, "distinct_nontrivial": outcomes["ok"] + outcomes["error"], "samples": samples, "outcomes": outcomes,
+    return {"evaluations": runs + edge_runs, "edge_matrix_runs": edge_runs, "distinct_nontrivial": outcomes["ok"] + outcomes["error"], "samples": samples, "outcomes": outcomes,
             "known_crash_classes_seen": known_seen}, failures, known_seen
 
 
